@@ -272,19 +272,24 @@ theorem run_facts (fpp : Nat) (L : List GL) (f0 : Int) (H : List (List (List Pkt
           chanData l.nchan ch (((fullOf l (arrOf H i)).drop (skipOf (startSN L) l)).take (navail L H))) ∧
       rep' = (outs.map (·.2.dropped)).sum ∧
       (∀ tk b, outs.getLast? = some (tk, b) → tk + 1 = H.length →
-        s'.pend = 0 ∧ ∀ i l, L[i]? = some l → a' i = addedOf l (arrOf H i)) := by
+        s'.pend = 0 ∧ ∀ i l, L[i]? = some l → a' i = addedOf l (arrOf H i)) ∧
+      (∀ x ∈ outs, ∃ nb mb, nb + mb ≤ navail L H ∧ 0 < mb ∧ x.2.nframes = mb * fpp ∧
+        ∀ i l, L[i]? = some l → x.2.data[i]? = some (window L (arrOf H) l i nb mb)) := by
   obtain ⟨hL, hok⟩ := valid_facts hv
-  obtain ⟨s', bs, c', a', n', rep', h1, h2, _, h4, h5, h6, h7, h8, _⟩ :=
+  obtain ⟨s', bs, c', a', n', rep', h1, h2, _, h4, h5, h6, h7, h8, _, h10⟩ :=
     run_spec fpp L f0 hL H 0 (startSt gs f0) (fun _ => []) (arrOf H) (fun _ => 0) (fun _ => 0) 0 0 perms
       (fun i => by simp) hok hp.1 hp.2 (init_inv fpp L f0 gs hL hi)
   have hn := inv_navail hok h2
   subst hn
-  refine ⟨s', bs, c', a', rep', h1, h2, by simpa using h4, h5, ?_, by simpa using h7, ?_⟩
+  refine ⟨s', bs, c', a', rep', h1, h2, by simpa using h4, h5, ?_, by simpa using h7, ?_, ?_⟩
   · intro i l hl ch hch
     have := h6 i l hl ch hch
     simpa using this
   · intro tk b hb ht
     exact h8 tk b hb (by omega)
+  · intro x hx
+    obtain ⟨nb, mb, _, k2, k3, k4, k5⟩ := h10 x hx
+    exact ⟨nb, mb, k2, k3, k4, k5⟩
 
 /-- **C03_no_panic**: on a valid layout (equal frames per packet) the reader loop never panics —
 in particular `trimPacketsBefore` never indexes an empty queue and `demuxData` never stops in the
@@ -369,6 +374,53 @@ theorem C03_groups_aligned (fpp : Nat) (L : List GL) (f0 : Int) (H : List (List 
   rw [hrun] at h1; cases h1
   exact chkShape_of L _ h4
 
+/-- **C03_block_windows**: every emitted block holds, for every group, the same window of global
+sequence numbers: the `mb` packets numbered `startSN + nb … startSN + nb + mb - 1` of that group's
+gap-filled stream (`window`), `mb * fpp` frames on every channel. -/
+theorem C03_block_windows (fpp : Nat) (L : List GL) (f0 : Int) (H : List (List (List Pkt))) (gs : List Group)
+    (perms : List (List Nat)) (hv : validIn fpp L H = true) (hi : InitOK L gs) (hp : PermsOK L.length H perms)
+    (s' : St) (outs : List (Nat × Block)) (hrun : runFrom 0 (startSt gs f0) H perms = .ok (s', outs)) :
+    ∀ x ∈ outs, ∃ nb mb, nb + mb ≤ navail L H ∧ 0 < mb ∧ x.2.nframes = mb * fpp ∧
+      ∀ i l, L[i]? = some l →
+        x.2.data[i]? = some (window L (arrOf H) l i nb mb) ∧
+        -- the window starts at global number startSN + nb in every group
+        ∀ q, (((fullOf l (arrOf H i)).drop (skipOf (startSN L) l + nb)).take mb).head? = some q →
+          q.sn - l.sync = startSN L + nb := by
+  obtain ⟨s2, outs2, _, _, _, h1, _, _, _, _, _, _, h8⟩ := run_facts fpp L f0 H gs perms hv hi hp
+  rw [hrun] at h1; cases h1
+  obtain ⟨_, hok⟩ := valid_facts hv
+  intro x hx
+  obtain ⟨nb, mb, k1, k2, k3, k4⟩ := h8 x hx
+  refine ⟨nb, mb, k1, k2, k3, ?_⟩
+  intro i l hl
+  refine ⟨k4 i l hl, ?_⟩
+  intro q hq
+  have hg := hok i l hl
+  have hmem : q ∈ (fullOf l (arrOf H i)).drop (skipOf (startSN L) l + nb) := by
+    have := List.mem_of_mem_head? hq
+    exact List.mem_of_mem_take this
+  -- the head of the dropped list carries number l0 + 1 + skip + nb
+  have hsn := congrArg (fun xs => xs.drop (skipOf (startSN L) l + nb)) (fullOf_sns hg)
+  simp only [← List.map_drop, List.drop_range'] at hsn
+  cases hd : (fullOf l (arrOf H i)).drop (skipOf (startSN L) l + nb) with
+  | nil => rw [hd] at hmem; simp at hmem
+  | cons q' rest =>
+    rw [hd] at hsn hq
+    cases mb with
+    | zero => omega
+    | succ mb' =>
+      simp only [List.take_succ_cons, List.head?_cons, Option.some.injEq] at hq
+      subst hq
+      have hlen : 0 < (fullOf l (arrOf H i)).length - (skipOf (startSN L) l + nb) := by
+        have := congrArg List.length hd
+        simp only [List.length_drop, List.length_cons] at this; omega
+      obtain ⟨r, hr⟩ : ∃ r, (fullOf l (arrOf H i)).length - (skipOf (startSN L) l + nb) = r + 1 := ⟨_, (Nat.succ_pred_eq_of_pos hlen).symm⟩
+      rw [hr] at hsn
+      simp only [List.map_cons, List.range'_succ, List.cons.injEq, Nat.mul_one] at hsn
+      have := skip_eq L i l hl
+      have := hg.sync_le
+      omega
+
 theorem lostFrames_eq {fpp : Nat} {L : List GL} {H : List (List (List Pkt))} (hok : AllOK fpp L (arrOf H))
     (a : Nat → Nat) (ha : ∀ i l, L[i]? = some l → a i = addedOf l (arrOf H i)) :
     sumTo L.length a = lostFrames fpp L H := by
@@ -393,7 +445,7 @@ theorem C03_dropped_count (fpp : Nat) (L : List GL) (f0 : Int) (H : List (List (
     (perms : List (List Nat)) (hv : validIn fpp L H = true) (hi : InitOK L gs) (hp : PermsOK L.length H perms)
     (s' : St) (outs : List (Nat × Block)) (hrun : runFrom 0 (startSt gs f0) H perms = .ok (s', outs)) :
     chkDropped fpp L H outs = true := by
-  obtain ⟨s2, outs2, c', a', rep', h1, hinv, _, _, _, h6, h7⟩ := run_facts fpp L f0 H gs perms hv hi hp
+  obtain ⟨s2, outs2, c', a', rep', h1, hinv, _, _, _, h6, h7, _⟩ := run_facts fpp L f0 H gs perms hv hi hp
   rw [hrun] at h1; cases h1
   obtain ⟨_, hok⟩ := valid_facts hv
   unfold chkDropped
@@ -449,5 +501,12 @@ example : PermsOK exL.length exH [[1, 0], [0, 1]] := by
 example : (runFrom 0 (startSt exGs 0) exH [[1, 0], [0, 1]]).toOption.map (·.2) =
     some [(1, { data := [[[50, 60, 80, 80]], [[50, 60, 70, 80]]], nframes := 4, dropped := 1, first := 0 })] := by
   decide
+
+/-- the excluded point: with unequal frames per packet (group 0: 2, group 1: 3) the same loop
+panics in `demuxData` ("still frames to fill"), so the equal-frames guard of `validIn` is needed -/
+def exGs2 : List Group := [⟨0, 1, [], 4, 0⟩, ⟨1, 1, [], 4, 0⟩]
+def exH2 : List (List (List Pkt)) := [[[⟨5, false, [1, 2]⟩, ⟨6, false, [3, 4]⟩], [⟨5, false, [1, 2, 3]⟩, ⟨6, false, [4, 5, 6]⟩]]]
+
+theorem C03_unequal_fpp_panics : (runFrom 0 (startSt exGs2 0) exH2 [[0, 1]]).toOption = none := by decide
 
 end DastardV.C03
